@@ -32,6 +32,10 @@ def bases(draw):
     tid = 0
     rank = 0
     order = draw(st.permutations(list(range(nlooms))))
+    # loom names: distinct hosts, or several looms of one host ("h0", "h0.aux", "h0.1"):
+    # there the path order (loom.h0.aux/ < loom.h0/) differs from the name order
+    samehost = draw(st.booleans())
+    suffixes = draw(st.permutations(["", ".aux", ".1", ".b"]))
     for li in range(nlooms):
         ncpus = draw(st.integers(1, 4))
         phys = draw(st.lists(st.integers(0, 12), min_size=ncpus, max_size=ncpus, unique=True))
@@ -43,7 +47,8 @@ def bases(draw):
                 tid += draw(st.integers(1, 3))
                 ths.append(tid)
             procs.append({"pid": pid, "tids": ths, "app": draw(st.integers(1, 3)), "rank": None})
-        looms.append({"name": "h%d.%d" % (order[li], li), "cpus": [[i, p] for i, p in enumerate(phys)], "procs": procs})
+        lname = ("h0%s" % suffixes[li]) if samehost else "h%d.%d" % (order[li], li)
+        looms.append({"name": lname, "cpus": [[i, p] for i, p in enumerate(phys)], "procs": procs})
     if ranked:
         allp = [p for l in looms for p in l["procs"]]
         rk = draw(st.permutations(list(range(len(allp)))))
